@@ -13,6 +13,7 @@ package concprobe
 
 import (
 	"context"
+	"errors"
 	"encoding/json"
 	"fmt"
 	"io"
@@ -71,6 +72,11 @@ func (q *quickRunner) Run(t *task.Task) error {
 	select {
 	case <-time.After(q.d):
 		t.End = time.Now()
+		if t.Name == "bad" {
+			t.Errored, t.Error = true, errBad
+			q.onChange(t)
+			return errBad
+		}
 		q.onChange(t)
 		return nil
 	case <-q.ctx.Done():
@@ -88,6 +94,8 @@ func (q *quickRunner) Cancel() {
 	q.mu.Unlock()
 }
 func (q *quickRunner) Finish() {}
+
+var errBad = errors.New("exit status 1")
 
 type lockKey struct {
 	Site      string `json:"site"`
@@ -116,7 +124,7 @@ type factKey struct {
 	B    int    `json:"b"` // C01: concurrency    C05: queue limit    C11: seq of Shutdown.begin (0: none)        C16: variant installed at that moment
 }
 
-var qlimit = map[string]int{"a": 3, "b": 1, "c": -1, "r": 3}
+var qlimit = map[string]int{"a": 3, "b": 1, "c": -1, "r": 3, "f": -1}
 
 func defs(variant int) *definition.PipelinesDef {
 	three, one := 3, 1
@@ -127,12 +135,15 @@ func defs(variant int) *definition.PipelinesDef {
 			Tasks: map[string]definition.TaskDef{"t": {Script: []string{"x"}}}},
 		"c": {Concurrency: 1, SourcePath: "x", RetentionPeriod: 300 * time.Millisecond,
 			Tasks: map[string]definition.TaskDef{"t": {Script: []string{"x"}}, "u": {Script: []string{"x"}}}},
+		// a task that fails while its sibling goes on (no fail-fast): the job must end with that error
+		"f": {Concurrency: 2, SourcePath: "x", ContinueRunningTasksAfterFailure: true, RetentionCount: 8,
+			Tasks: map[string]definition.TaskDef{"bad": {Script: []string{"x"}}, "good": {Script: []string{"x"}}}},
 		"r": {Concurrency: 2, QueueLimit: &three, SourcePath: "x", RetentionCount: 6,
 			Tasks: map[string]definition.TaskDef{"t": {Script: []string{"true"}}, "u": {Script: []string{"sleep 0.02"}, DependsOn: []string{"t"}}}},
 	}}
 }
 
-var conc = map[string]int{"a": 2, "b": 1, "c": 1, "r": 2}
+var conc = map[string]int{"a": 2, "b": 1, "c": 1, "r": 2, "f": 2}
 
 func TestConcurrentClients(t *testing.T) {
 	outLock, outSnap := os.Getenv("VERIF_ROWS_LOCK"), os.Getenv("VERIF_ROWS_LOCK_SNAP")
@@ -141,10 +152,10 @@ func TestConcurrentClients(t *testing.T) {
 	}
 	log.SetHandler(discard.Default)
 	seed, _ := strconv.ParseInt(os.Getenv("VERIF_SEED"), 10, 64)
-	dur := 1500 * time.Millisecond
-	rounds := 2
+	dur := 600 * time.Millisecond
+	rounds := 6
 	if os.Getenv("VERIF_TIER") == "thorough" {
-		dur, rounds = 4*time.Second, 6
+		dur, rounds = 1500*time.Millisecond, 16
 	}
 	var mu sync.Mutex
 	counts := map[lockKey]int{}
@@ -258,6 +269,20 @@ func TestConcurrentClients(t *testing.T) {
 				scancel()
 				close(shutdownDone)
 			}()
+			// saves (what the persist loop does at any time) all through the shutdown
+			wg.Add(1)
+			go func() {
+				defer wg.Done()
+				time.Sleep(dur*2/3 - 20*time.Millisecond)
+				for {
+					select {
+					case <-shutdownDone:
+						return
+					default:
+						pr.SaveToStore()
+					}
+				}
+			}()
 		}
 		nclients := 8
 		for c := 0; c < nclients; c++ {
@@ -270,7 +295,7 @@ func TestConcurrentClients(t *testing.T) {
 				for time.Now().Before(stop) {
 					switch k := rnd.Intn(100); {
 					case k < 35:
-						p := []string{"a", "a", "b", "c", "r"}[rnd.Intn(5)]
+						p := []string{"a", "a", "b", "c", "r", "f"}[rnd.Intn(6)]
 						if j, err := pr.ScheduleAsync(p, prunner.ScheduleOpts{Variables: map[string]interface{}{"c": c}}); err == nil {
 							mine = append(mine, j.ID)
 							ids.Store(j.ID, true)
@@ -293,9 +318,24 @@ func TestConcurrentClients(t *testing.T) {
 								if j.Completed && j.End == nil {
 									bad("completed job without end time", j.ID.String())
 								}
+								failed := false
 								for _, tk := range j.Tasks {
 									if j.Completed && tk.Status == "running" {
 										bad("completed job with a running task", j.ID.String())
+									}
+									if tk.Status == "error" && tk.Errored {
+										failed = true
+									}
+								}
+								if j.Completed && j.Pipeline == "f" && failed {
+									k := factKey{Prop: "C08", What: "verdict-of-completed-job-with-failed-task", P: "f"}
+									if j.LastError == nil {
+										k.A = 1 // reported as succeeded
+									} else if j.Canceled {
+										k.A = 2 // reported as canceled although nobody canceled it (only if it was not canceled by its client)
+									}
+									if k.A != 2 {
+										fact(k)
 									}
 								}
 							})
@@ -371,9 +411,11 @@ func TestConcurrentClients(t *testing.T) {
 		t.Fatal(err)
 	}
 	enc := json.NewEncoder(f)
+	mu.Lock()
 	for k, n := range counts {
 		_ = enc.Encode(map[string]interface{}{"site": k.Site, "mutates": k.Mutates, "writeHeld": k.WriteHeld, "anyHeld": k.AnyHeld, "n": n})
 	}
+	mu.Unlock()
 	f.Close()
 	flushFacts()
 	f2, _ := os.Create(outSnap)
